@@ -76,6 +76,9 @@ pub enum G {
     /// harness-only: the same as `cnext`, written with `next_maybe` + `peek` + `span_since` / `InputRef::parse` / `InputRef::check`
     CNextMaybe(u64),
     CParse(Box<G>),
+    /// `a.map(Some).unwrapped()` / `a.map(Ok).unwrapped()`: the identity on `a`
+    UnwrapSome(Box<G>),
+    UnwrapOk(Box<G>),
     TryMapSpan(Box<G>),
     CCheck(Box<G>),
     CTake2(u64),
@@ -334,6 +337,8 @@ impl<'a> Rd<'a> {
             "cnext" => G::CNext(self.nat()?),
             "cnextmaybe" => G::CNextMaybe(self.nat()?),
             "cparse" => G::CParse(self.bg()?),
+            "unwrapsome" => G::UnwrapSome(self.bg()?),
+            "unwrapok" => G::UnwrapOk(self.bg()?),
             "trymapspan" => G::TryMapSpan(self.bg()?),
             "ccheck" => G::CCheck(self.bg()?),
             "ctake2" => G::CTake2(self.nat()?),
